@@ -98,6 +98,16 @@ CHECKS = {
              'number, addressing and content of replies and the invocation log are compared with a dispatch oracle coded '
              'from the property statement.',
         note='DBusObjectHandler is driven on a recording connection stub; ' + TRUST),
+    'C11': dict(
+        category='exploration', design_ref='DESIGN.md section 3 C11',
+        technique='end-to-end simulation: real clients + real bus on scheduler-owned links, Hypothesis-drawn and systematically enumerated delivery schedules',
+        text='2-4 real DBusClientConnections and the real Bus run in one process on in-memory links whose byte delivery the '
+             'harness schedules; generated exported objects, proxies obtained explicitly / by known name / by '
+             'introspection, 1-3 concurrent calls with unique tokens and scripted outcomes (values, exceptions, late '
+             'Deferreds). Random schedules with byte-level splitting, and every message-granular order for small '
+             'scenarios (systematic re-execution). At quiescence invocation log and caller results are compared with '
+             'what was sent and returned.',
+        note='set-up traffic is delivered FIFO; the bus offers ANONYMOUS only; ' + TRUST),
     'C12': dict(
         category='exploration', design_ref='DESIGN.md section 3 C12',
         technique='stateful add/remove/deliver histories (Hypothesis) against an independent reference matcher; rule-text round trip through a reference parser',
